@@ -20,8 +20,9 @@ def run(tier):
     dn = "deffilter_quick" if tier == "quick" else "deffilter_thorough"
     sn = "step_quick" if tier == "quick" else "step_thorough"
     jobs = [
-        Job("harness.c17", "gate", [{}], 60, bounds=dict(verdicts="two independent bools for two code objects sharing file and function name", with_filter="bool", co_name=["<real>", "trace_types"], order="both"),
-            rule="filter verdicts x filter present x code name x function x call order", describe=H.describe),
+        Job("harness.c17", "gate", [{}], 60, bounds=dict(verdicts="two independent bools for two code objects sharing file and function name", with_filter="bool", co_name=["<real>", "trace_types"], order="both",
+                                                         recycled="the first code object dies before the second is created (adversarial allocator looks for address reuse)"),
+            rule="filter verdicts x filter present x code name x function x call order x recycled", describe=H.describe, max_samples=10**6, validate_limit=10**6),
         Job("harness.c17", "mainmod", [{}], 120, bounds=dict(module_names="2 symbolic strings, length <= 9"),
             rule="string classes decided by the solver (equal to '__main__' or not)", describe=H.describe),
         Job("harness.c17", dn, H.deffilter_shards(dn), 300 if tier == "quick" else 600, bounds=dict(H.CFG[dn.split('_')[1]]),
